@@ -235,6 +235,18 @@ pub fn run(ctx: &mut Ctx) {
                 ctx.violation(format!("c14:single:{}", if eq.is_none() { "rejected" } else if eq == Some(false) { "wrong-value" } else { "consumed-not-one-entry" }), json!({"outcome": out.show(), "first_entry_len": first, "input_hex": hex_short(&input)}));
             }
         }
+        // the first entry alone (it fills its input exactly): same value, and it stopped at the end of the input
+        {
+            let alone = &input[..first];
+            let r1 = parse_ct_signed_certificate_timestamp(alone);
+            let out = classify(&r1);
+            ctx.eval();
+            if matches!(&r1, Ok((_, v)) if veq(v, &a.expected())) && out.rem_is_suffix_strict(alone, first) {
+                ctx.count("single.exact-fill.ok");
+            } else {
+                ctx.violation(format!("c14:single:exact-fill:{}", if r1.is_ok() { "consumed-not-one-entry" } else { "rejected" }), json!({"outcome": out.show(), "entry_len": first, "input_at": alone.as_ptr() as usize, "input_hex": hex_short(alone)}));
+            }
+        }
         // every strict prefix of one entry: no value
         if first < 200 {
             for cut in 0..first {
@@ -277,7 +289,10 @@ pub fn run(ctx: &mut Ctx) {
             if let Some((out, eq)) = got {
                 ctx.eval();
                 ctx.shape(&("single-sizes", d, tail, out.class()));
-                if eq == Some(true) && out.rem_is_suffix(&input, first) {
+                // the position is judged also when nothing follows: the remainder of an entry that fills its input
+                // is the empty slice at the END of the input ("consumes exactly one entry" is a statement about
+                // where the parser stopped; nom's consumed / recognize / offset compute with that address)
+                if eq == Some(true) && out.rem_is_suffix_strict(&input, first) {
                     ctx.count("single-sizes.ok");
                 } else {
                     ctx.violation(
@@ -332,6 +347,46 @@ pub fn run(ctx: &mut Ctx) {
                         format!("c14:{}:inner-lengths-exceed-entry-yet-an-sct-is-returned", if parser == 0 { "single" } else { "list" }),
                         json!({"declared_entry_length": e, "extensions_len": ext_len, "signature_len": sig_len, "excess_over_entry": excess, "outcome": out.show(), "input_hex": hex_short(&input)}),
                     );
+                }
+            }
+        }
+    });
+
+    // a list whose declared length is at or near a boundary (0xFFFF, 0xFFFE, 0xFFFD, 0x8000, 0x0100, small) and whose
+    // input is short by 1, 2, 3 bytes (or by half): never an SCT, never a panic; Incomplete is what the parser says today
+    ctx.floor("short-by-a-few.cases", 40);
+    ctx.sweep("list-short-by-a-few-bytes", 8, |ctx, idx| {
+        let mut r = Rng::new(idx ^ 0x5B);
+        let declared = [0xFFFFusize, 0xFFFE, 0xFFFD, 0xFFFC, 0x8000, 0x0100, 0x0031, 0x0002][idx as usize];
+        // the body: well-formed entries as far as they go
+        let mut body = Vec::new();
+        while body.len() < declared {
+            let mut w = W::new();
+            let mut s = gen::sct(&mut r, gen::TINY);
+            if r.bool() {
+                s.ext = vec![];
+                s.sig = vec![];
+            }
+            s.enc(&mut w);
+            body.extend(w.b);
+        }
+        for short in [1usize, 2, 3, 4, declared / 2, declared] {
+            if short > declared {
+                continue;
+            }
+            let avail = declared - short;
+            let mut input = vec![(declared >> 8) as u8, declared as u8];
+            input.extend_from_slice(&body[..avail]);
+            let got = ctx.guarded("parse_ct_signed_certificate_timestamp_list", &input[..input.len().min(40)], || {
+                let r = parse_ct_signed_certificate_timestamp_list(&input);
+                (classify(&r), r.is_ok())
+            });
+            if let Some((out, ok)) = got {
+                ctx.eval();
+                ctx.count("short-by-a-few.cases");
+                ctx.shape(&("short-list", declared, short.min(5), out.class()));
+                if ok {
+                    ctx.violation("c14:list:declared-length-exceeds-input-yet-accepted".into(), json!({"declared_list_length": declared, "available_after_length_field": avail, "outcome": out.show()}));
                 }
             }
         }
